@@ -234,7 +234,7 @@ fn c09_adversarial() -> R {
 // ------------------------------------------------------------------------------------ C10
 
 fn c10_recipients() -> R {
-    let subs = vec![l(1), w(n(l(1), vec![a(l(2), l(3))])), n(k(1001), vec![a(l(2), l(3))])];
+    let subs = vec![l(1), w(n(l(1), vec![a(l(2), l(3))])), n(k(1001), vec![a(l(2), l(3))]), n(n(l(1), vec![a(l(2), l(3))]), vec![a(l(4), l(5))])];
     let s = &subs[choice(subs.len())];
     let e = build(s);
     let before = bytes(&e);
@@ -352,7 +352,7 @@ pub fn prop_c10() -> Prop {
         id: "C10",
         scenarios: vec![
             Scenario { name: "recipients", f: c10_recipients, thorough_only: false,
-                bounds: "3 subjects (leaf, wrapped node, node with one assertion) x every recipient list of length 1..3 over 4 key pairs (3 X25519, 1 ML-KEM-512; duplicates allowed) x {encrypt_subject_to_recipients, encrypt_subject + add_recipient one at a time, the same interleaved with other assertions (lists of <=2 on a bare subject)} x each of the 4 private keys (listed and unlisted) x every digest order (which hasRecipient assertion is tried first is the hash's choice)",
+                bounds: "4 subjects (leaf, wrapped node, node with one assertion, node whose subject is a node) x every recipient list of length 1..3 over 4 key pairs (3 X25519, 1 ML-KEM-512; duplicates allowed) x {encrypt_subject_to_recipients, encrypt_subject + add_recipient one at a time, the same interleaved with other assertions (lists of <=2 on a bare subject)} x each of the 4 private keys (listed and unlisted) x every digest order (which hasRecipient assertion is tried first is the hash's choice)",
                 api: &["encrypt_subject_to_recipients", "add_recipient", "recipients", "decrypt_subject_to_recipient", "encrypt_subject", "decrypt_subject"] },
             Scenario { name: "wrap_and_seal", f: c10_wrap_and_seal, thorough_only: false,
                 bounds: "7 envelopes (incl. bare wrapped and doubly wrapped ones) x {X25519, ML-KEM-512} x {encrypt_to_recipient/decrypt_to_recipient, seal/unseal over sender schemes Ed25519 / Schnorr / ECDSA (+ ML-DSA-44, SSH-Ed25519 thorough)} x right key, wrong key of the same scheme, key of the other scheme, wrong sender x every digest order",
